@@ -428,7 +428,8 @@ func TestEngineQuery(t *testing.T) {
 			estS = fmt.Sprintf("%d:%s", est.Gas, vmErrClass(o2.vmErr))
 			if !o2.hasRcpt || o2.vmErr != "" {
 				// the estimate was computed on the state before tx 0 of this block; only judge calls whose first delivery cannot change the outcome of the second
-				if cl.name == "logger" || cl.name == "reverter" || cl.name == "gassy" || cl.name == "erc20-transfer" {
+				base := strings.TrimSuffix(cl.name, "+al")
+				if base == "logger" || base == "reverter" || base == "gassy" || base == "erc20-transfer" || base == "dataless-std-precompile" || base == "std-precompile" || base == "plain-transfer" || base == "dataless-contract" {
 					p.Oracle("C08-estimate-not-executable", "%s: estimateGas returned %d but delivery with that limit failed: class=%s vmErr=%q", cl.name, est.Gas, obsClass(o2), o2.vmErr)
 				}
 			}
